@@ -49,14 +49,14 @@ Print Assumptions C07_model_holds.
    decider accepts the model's output *)
 Definition ex7_A : schema :=
   [mkTable 0 [mkCol 0 (mkTy 0 []) false true None; mkCol 1 (mkTy 3 [20]) true false (Some (DLit [53])); mkCol 2 (mkTy 5 [10;2]) true false None]
-             [Uq 1 [1]; Ix 2 [2;1] false] [mkFk 1 [2] 0 [0]];
+             [Uq 1 [1]; Ix 2 [2;1] false] [mkFk 1 [2] 0 [0] no_opts true];
    mkTable 1 [mkCol 0 (mkTy 0 []) false true None] [] []].
 Definition ex7_muts : list mut :=
-  [MAddTable (mkTable 2 [mkCol 0 (mkTy 0 []) false true None] [Ix 20 [0] false] [mkFk 20 [0] 0 [0]]); MDropTable 1;
+  [MAddTable (mkTable 2 [mkCol 0 (mkTy 0 []) false true None] [Ix 20 [0] false] [mkFk 20 [0] 0 [0] no_opts true]); MDropTable 1;
    MAddColumn 1 (mkCol 5 (mkTy 4 []) true false (Some (DExpr [49]))); MDropColumn 1 0; MFlipNullable 0 1; MChangeType 0 2 (mkTy 9 []);
    MChangeDefault 0 1 None; MChangeDefault 0 1 (Some (DExpr [39;54;39])); MChangeDefault 0 2 (Some (DLit [120]));
    MAddCons 0 (Uq 3 [2]); MAddCons 0 (Ix 4 [0] true); MDropCons 0 1; MDropCons 0 2; MChangeCons 0 (Uq 1 [2]); MChangeCons 0 (Ix 2 [2;1] true);
-   MAddFk 0 (mkFk 2 [1;2] 0 [1;0]); MAddFk 1 (mkFk 10 [0] 0 [0]); MDropFk 0 1].
+   MAddFk 0 (mkFk 2 [1;2] 0 [1;0] no_opts true); MAddFk 1 (mkFk 10 [0] 0 [0] no_opts true); MDropFk 0 1].
 Example C07_nonvacuous :
   forallb (fun m => inclass_C07 (ex7_A, m) && check_C07 (ex7_A, m) (model_C07 (ex7_A, m))
                     && negb (is_nil (diff (mkCfg true true) (reflect_sqlite ex7_A) (apply_mut m ex7_A)))) ex7_muts = true.
